@@ -218,7 +218,9 @@ theorem sendFromModule_seqH {s s1 : St} {q q1 : Seq} {amt : Nat} {to : Addr}
   · cases e
   · split at e
     · cases e
-    · injection e with e; injection e with e1 _; subst e1; exact ⟨rfl, rfl⟩
+    · split at e
+      · cases e
+      · injection e with e; injection e with e1 _; subst e1; exact ⟨rfl, rfl⟩
 
 theorem burn_seqH {s s1 : St} {q q1 : Seq} {amt : Nat} (e : burn s q amt = .ok (s1, q1)) :
     s1.seqH = s.seqH ∧ s1.queue = s.queue := by
